@@ -337,3 +337,68 @@ def base_programs():
         {"op": "dispense", "lw": P, "wells": L([(0, 1)]), "vols": S(2), "label": None},
     ]
     return [h]
+
+
+def split_programs(dev):
+    """Transfers around multiples of max_volume, non-integer microlitre max_volume, auto_split on/off (C06)."""
+    progs = []
+    P, T = 0, 1
+
+    def lw(maxv):
+        return [gen.mk_plate("plate", 2, 3, 0, maxv, [0] * 6), gen.mk_trough("trough", 2, 2, 0, 40 * maxv, [20 * maxv, 20 * maxv])]
+
+    # unit 1/2 microlitre: max_volume 1901 units = 950.5 microlitres (the failing input of finding F-01)
+    for name, unit, M, vols in [
+        ("950.5", Fraction(1, 2), 1901, [3802, 1901, 1902, 5703, 1900, 3803]),
+        ("quarter", Fraction(1, 4), 3, [3, 4, 5, 6, 7, 12]),
+        ("integer", Fraction(1), 950, [950, 951, 1900, 1901, 2850, 0]),
+        ("halfint", Fraction(1, 2), 5, [5, 6, 10, 11, 15, 16]),
+    ]:
+        for pby in ("source", "destination"):
+            h = _hdr(f"split/{name}-{pby}", dev, lw(20 * M), wlmax=M, unit=unit, flags={"comp": False, "norm": False})
+            h["ops"] = [
+                {"op": "transfer", "src": T, "sw": L([(0, 0), (1, 0), (0, 1), (1, 1), (0, 0), (1, 1)]), "dst": P,
+                 "dw": L([(0, 0), (1, 0), (0, 1), (1, 1), (0, 2), (1, 2)]), "vols": L(vols), "label": "split", "wash": 1, "pby": pby},
+                {"op": "transfer", "src": P, "sw": L([(0, 0)]), "dst": P, "dw": L([(1, 2)]), "vols": S(vols[0] // 2), "label": None, "wash": "flush"},
+            ]
+            progs.append(h)
+        h = _hdr(f"split/{name}-nosplit", dev, lw(20 * M), wlmax=M, unit=unit, autosplit=False, flags={"comp": False, "norm": False})
+        h["ops"] = [
+            {"op": "transfer", "src": T, "sw": L([(0, 0), (1, 0)]), "dst": P, "dw": L([(0, 0), (1, 0)]), "vols": L([M, M - 1]), "label": "fits", "wash": 1},
+            {"op": "transfer", "src": T, "sw": L([(0, 0), (1, 0)]), "dst": P, "dw": L([(0, 1), (1, 1)]), "vols": L([1, M + 1]), "label": "too big", "wash": 1},
+        ]
+        progs.append(h)
+        h = _hdr(f"split/{name}-multidisp", dev, lw(20 * M), wlmax=M, unit=unit, flags={"comp": False, "norm": False})
+        h["ops"] = [
+            {"op": "distribute", "src": T, "col": 0, "dst": P, "dw": L([(0, 0), (1, 0), (0, 1)]), "vol": max(1, M // 3), "md": md, "label": "md"}
+            for md in (1, 2, 3, 4, 12)
+        ] + [{"op": "distribute", "src": T, "col": 1, "dst": P, "dw": L([(0, 2)]), "vol": M, "md": 5, "label": "full"},
+             {"op": "distribute", "src": T, "col": 1, "dst": P, "dw": L([(1, 2)]), "vol": M + 1, "md": 1, "label": "too big"}]
+        progs.append(h)
+    return progs
+
+
+def tip_programs(dev):
+    """Tip keyword through aspirate / dispense / transfer: both records of a pair carry the same mask (C10)."""
+    progs = []
+    P, T = 0, 1
+    tips = [
+        {"k": "one", "s": ["int", 3]},
+        {"k": "one", "s": ["tip", 8]},
+        {"k": "one", "s": ["any"]},
+        {"k": "coll", "x": [["int", 1], ["tip", 1], ["int", 4]]},
+        {"k": "coll", "x": [["tip", 8], ["int", 2], ["tip", 2], ["int", 8]], "present": "tuple"},
+        {"k": "coll", "x": [["int", n] for n in range(1, 9)]},
+    ]
+    bad = [{"k": "one", "s": ["int", 0]}, {"k": "one", "s": ["int", 9]}, {"k": "coll", "x": [["int", 1], ["any"]]},
+           {"k": "one", "s": ["bad", "float"]}, {"k": "coll", "x": [["bad", "str"]]}]
+    for i, t in enumerate(tips + bad):
+        h = _hdr(f"tips/{i}", dev, base_labware(), flags={"comp": False, "norm": False})
+        h["ops"] = [
+            {"op": "transfer", "src": T, "sw": L([(0, 0), (1, 0)]), "dst": P, "dw": L([(0, 1), (1, 1)]), "vols": L([4, 11]),
+             "label": "tips", "wash": 1, "kw": {"tip": t, "lc": "Water"}},
+            {"op": "aspirate", "lw": P, "wells": L([(0, 0), (0, 1)]), "vols": L([1, 2]), "label": None, "kw": {"tip": t}},
+            {"op": "dispense", "lw": P, "wells": L([(2, 2)]), "vols": S(3), "label": None, "kw": {"tip": t}},
+        ]
+        progs.append(h)
+    return progs
